@@ -158,6 +158,9 @@ func (c08) Generate(r *sim.Rand, tier string) *sim.Scenario {
 	if tier == "thorough" {
 		maxSteps = 80
 	}
+	if r.Bool(0.25) {
+		maxSteps = maxSteps * 3 / 2 // long histories
+	}
 	nsteps := r.Range(4, maxSteps)
 	sc.Cfg["clients"] = float64(nclients)
 	sc.Cfg["rngseed"] = float64(r.Intn(1 << 30))
@@ -165,6 +168,12 @@ func (c08) Generate(r *sim.Rand, tier string) *sim.Scenario {
 	shadow := sim.NewPool()
 	m := newModel08()
 	o := genOpts{MaxElems: 48, MaxRank: 4, MaxDim: 4, Comparison: true, PSynth: []float64{0.05, 0.15, 0.3}[r.Intn(3)], PTracked: []float64{0.5, 0.8, 1}[r.Intn(3)]}
+	switch r.Intn(8) { // size swarm
+	case 0:
+		o.MaxDim, o.MaxElems = 18, 120
+	case 1:
+		o.MaxRank = 6
+	}
 	// swarm weights
 	wCreate, wOp, wBP, wReset, wGrad, wBad := 3, 10, r.Range(1, 4), r.Range(0, 3), r.Range(0, 2), r.Range(0, 2)
 	total := wCreate + wOp + wBP + wReset + wGrad + wBad
@@ -183,7 +192,7 @@ func (c08) Generate(r *sim.Rand, tier string) *sim.Scenario {
 		return res.Err == nil && res.T != nil
 	}
 	create := func(c int) {
-		shape := randShape(r, 3, 4, 24)
+		shape := randShape(r, 3, minInt(o.MaxDim, 9), 24+o.MaxDim)
 		st := sim.Step{C: c, Out: ids.New(), B: r.Bool(o.PTracked)}
 		switch r.Intn(6) {
 		case 0:
@@ -617,8 +626,8 @@ func (prop c08) Execute(sc *sim.Scenario) *sim.Outcome {
 			case "shape-mismatch":
 				op := c08MismatchOps[st.N%len(c08MismatchOps)]
 				shp := x.Shape()
-				bad := append(cpI(shp), 7) // one more dimension of size 7: never compatible below
-				other, e := tensor.Ones(append([]int{5}, bad...)[:minInt(len(bad)+1, 5)], nil)
+				// one more trailing dimension: a different rank, never the same shape
+				other, e := tensor.Ones(append(cpI(shp), 2), nil)
 				if e != nil {
 					sim.Bug("mismatch operand: %v", e)
 				}
@@ -655,7 +664,7 @@ func (prop c08) Execute(sc *sim.Scenario) *sim.Outcome {
 					r := sim.ApplyOn(sim.Step{Op: "matmul", Out: -1}, []tensor.Tensor{x, o2})
 					got, err = r.T, r.Err
 				case "concat":
-					got, err = tensor.Concat([]tensor.Tensor{x, other}, 0)
+					got, err = tensor.Concat([]tensor.Tensor{x, x}, len(shp)) // dimension out of range (scalars cannot be concatenated at all)
 				case "reshape":
 					got, err = x.Reshape([]int{sim.NElems(shp) + 1})
 				case "squeeze":
